@@ -7,6 +7,15 @@ CHECKS = {
  "C01": dict(cat="proof", tech="contract-based deductive: sidecar contracts on the real lie-group methods, traced to SX, identities decided by normal forms in a quotient polynomial ring (ALG)",
              text="Every obligation (to_Matrix = independent spec, homomorphism, two-sided inverse, identity and neutrality, associativity, from_Matrix section) is an exact identity decided for all inputs of the group's sort on every control path; direct products for a finite list of configurations.",
              note=A_GRAPH + "; lemma L-SO3 (DCM = R(q)); MRP singularity and Euler gimbal band excluded by requires", ref="5/C01"),
+ "C02": dict(cat="proof", tech="contract-based deductive: exp traced from the real code; ODE characterisation (ray derivative = hat(y) Phi, Phi(0)=I) decided as ring identities (ALG) + lemma L-ODE",
+             text="For every algebra/group pair Phi(y)=to_Matrix(exp(y)) satisfies the defining ODE of the matrix exponential along every ray and Phi(0)=I exactly; exp(-y)exp(y)=I and the one-parameter composition law are proved directly. All for every y on the closed-form cell (all angles > 0 incl. beyond pi, both MRP shadow branches); the Taylor cell is bounded in C06.",
+             note=A_GRAPH + "; CasADi forward AD; lemma L-ODE (uniqueness for linear ODEs) not machine-checked; Taylor cell deferred to C06", ref="5/C02"),
+ "C04": dict(cat="proof", tech="contract-based deductive: Ad/ad/bracket traced from the real code, conjugation/commutator/Jacobi/homomorphism identities decided by ring normal forms (ALG); Ad_exp = expm(ad) via the ODE characterisation",
+             text="Every obligation is an exact identity for all group/algebra elements of the sort: Ad_X y = vee(M(X) hat(y) M(X^-1)), ad_x y = [x,y] = vee(commutator), antisymmetry, Jacobi, Ad homomorphism and inverse, square n x n shapes, Ad(exp(ty)) solves Phi' = ad_y Phi with Phi(0)=I.",
+             note=A_GRAPH + "; CasADi forward AD; lemma L-ODE; closed-form cell for expad (Taylor cell in C06); direct-product Ad/bracket out of scope (asserted to raise)", ref="5/C04"),
+ "C05": dict(cat="proof", tech="contract-based deductive: differential of to_Matrix(exp(y)) in a symbolic direction compared with hat(J d) Phi / Phi hat(J d) as ring identities (ALG)",
+             text="dexpL/dexpR are literally the property's statement (derivative of exp equals the Jacobian) for a symbolic direction, for so(3), se(3), se_2(3); inverse Jacobians, J_l = Ad_exp J_r = J_r(-x), Q blocks, and the quaternion/MRP kinematic Jacobians (R' = [w]x R, R' = R [w]x, q.q' = 0) are exact identities for all inputs.",
+             note=A_GRAPH + "; CasADi forward AD; closed-form cell (Taylor cell in C06); requires 0 < theta < 2 pi for the inverse coefficients", ref="5/C05"),
 }
 NA = {
  "C17": "closed-loop convergence of the hybrid cascade from an envelope of initial conditions is a whole-trajectory property; no pre/postcondition on a function of /repo expresses it short of a Lyapunov certificate (its per-call ingredients are C13, C15, C16)",
